@@ -175,6 +175,7 @@ def main(argv):
     seed = int(os.environ.get('VERIF_SEED', '0'))
     if replay_file:
         job = json.load(open(replay_file))
+        job.setdefault('prop', prop)
         r = witness_replay(job)
         print(json.dumps(r, indent=1))
         return 1 if r.get('reproduced') else 0
